@@ -237,6 +237,10 @@ def parse_message(data, what="message", depth=0):
         else:
             raise GrammarError("%s: codec %d not supported by refproto" % (what, codec))
         rec["inner"] = parse_message_set(payload, what + " inner set", depth + 1, allow_partial=False)
+        for x in rec["inner"]:
+            # Kafka's log validator: "Compressed message magic does not match wrapper magic"
+            if x["magic"] != magic:
+                raise GrammarError("%s: inner message magic %d does not match wrapper magic %d" % (what, x["magic"], magic))
     return rec
 
 
